@@ -23,7 +23,7 @@ let code_variant = Fix
    w_input_labels = patches/0010 (bad/constraint labels are not named after inputs),
    w_last_label = patches/0011 (only the last label that refers to an expression is named after it);
    writer_fix = all three; a subset is { writer_cur with w_input_labels = true } etc.  Used by the C09 handler. *)
-let writer_variant = writer_cur
+let writer_variant = { writer_cur with w_input_labels = true; w_last_label = true }  (* /repo 196ebd7 (0010) and 86cfddc (0011) applied; 0008/0009 not applied *)
 
 let big_coqstr (s : string) : char list =
   let r = ref [] in
